@@ -42,7 +42,12 @@ def run(rep, tier, seed):
         pd.direction = d
         rules = gen_ruleset(rnd, pd, with_default=False, match_prob=rnd.choice([0.0, 0.0, 0.5]))
         nrs = [n_rule(r) for r in rules]
-        cm = ContextManager(Context(id='c', description='', interface_id='i', parser_id=stack, ruleset=rules))
+        ctx_ = Context(id='c', description='', interface_id='i', parser_id=stack, ruleset=rules)
+        if i % 2:
+            # the deployment path: the context is loaded from its JSON form (enum members, buffers, mappings are other objects, equal by value)
+            ctx_ = Context.from_json(ctx_.json())
+            rep.hist['context-loaded-from-json'] = rep.hist.get('context-loaded-from-json', 0) + 1
+        cm = ContextManager(ctx_)
         bits = b2s(pkt)
         npd = dict(n_pdesc(pd), dir=DIRC[d])
         applies = [nr for nr in nrs if ref_rule_applies(npd, nr)]
@@ -122,6 +127,9 @@ def run(rep, tier, seed):
         order = ctxs + decoys
         if decoys and rnd.random() < 0.5:
             order = decoys + ctxs
+        if rnd.random() < 0.5:
+            order = [Context.from_json(c.json()) for c in order]
+            rep.hist['front-end-contexts-loaded-from-json'] = rep.hist.get('front-end-contexts-loaded-from-json', 0) + 1
         front = SCHC(order)
         nctxs = [[n_rule(r) for r in c.ruleset] for c in ctxs]
         for step in range(6):
